@@ -164,6 +164,9 @@ def compute_features_2d(sigs, fs, f_range, compute_features_kwargs=None, axis=0,
                 elif burst_method == 'amp':
                     dfs_features[idx] = detect_bursts_amp(dfs_features[idx], **thresholds)
 
+                else:
+                    raise ValueError('Unrecognized burst_method: {method}'.format(method=burst_method))
+
     else:
         raise ValueError("The axis kwarg must be either 0 or None.")
 
